@@ -565,9 +565,16 @@ func TestVerifC10(t *testing.T) {
 	for i := range order {
 		order[i] = i
 	}
+	// cheap cases first (sequential mode, blocks of 1-2) so that a wall-clock cap
+	// never costs their coverage; then the rest, biggest first, for load balance
+	weight := func(c c10Case) int {
+		if c.Conc <= 1 || c.N <= 2 {
+			return 1000 - c.Conc*10 - c.N
+		}
+		return c.Conc*10 + c.N
+	}
 	sort.SliceStable(order, func(a, b int) bool {
-		ca, cb := cases[order[a]], cases[order[b]]
-		return ca.Conc*10+ca.N > cb.Conc*10+cb.N
+		return weight(cases[order[a]]) > weight(cases[order[b]])
 	})
 	err := explore.RunShards(explore.ShardSpec{Test: "TestVerifC10", Order: order, Procs: 16,
 		Env: []string{fmt.Sprintf("VERIF_C10_DEADLINE=%d", deadline.UnixMilli()), "VERIF_C09_TMP=" + filepath.Join(work, "tmp")}},
